@@ -131,8 +131,8 @@ Proof. intros [H _]. apply H. Qed.
 (* ------------------------------------------------------------------ branches *)
 Lemma typed_brs_p_find Δ Γ rs bs b l pay k :
   typed_brs_p Δ Γ rs bs b -> find_branch l b = Some (pay, k) ->
-  exists A, find_br l bs = Some A /\ binder pay /\
-            typed Δ (delete (ident pay) Γ) (Some (ident pay)) (rs ∖ {[ident pay]}) A k.
+  exists A, find_br l bs = Some A /\ pbinder pay /\
+            typed Δ (delete (ident pay) Γ) (Some (ident pay)) (rs ∖ ({[ident pay]} ∖ {[""]})) A k.
 Proof.
   induction 1 as [|Γ rs bs l' pay' k' r A Hf Hb Hk Hr IH]; simpl; [discriminate|].
   destruct (String.eqb l' l) eqn:E; [|auto].
@@ -638,8 +638,8 @@ Qed.
 
 Lemma act_RecvP s rs pay cont from k A B md :
   teq T0 s -> prov_name None rs from -> whd s (TLolli A B md) ->
-  binder pay -> binder cont -> ident pay <> ident cont ->
-  typed Δ (<[ident pay := A]> ∅) (Some (ident cont)) (rs ∖ {[ident pay]} ∖ {[ident cont]}) B k ->
+  binder pay -> pbinder cont -> ident pay <> ident cont ->
+  typed Δ (<[ident pay := A]> ∅) (Some (ident cont)) (rs ∖ {[ident pay]} ∖ ({[ident cont]} ∖ {[""]})) B k ->
   typed Δ ∅ None rs s (FRecv pay cont from k) ->
   act_view Δ (P (FRecv pay cont from k)) (action_of Async D (P (FRecv pay cont from k))).
 Proof.
@@ -651,7 +651,7 @@ Proof.
     eexists. exists Δ. split; [reflexivity|]. apply eff_typed_cont; auto. simpl.
     match goal with Hp : RtTyping.prov_ty _ _ (m_c2 m) _ |- _ =>
       destruct (prov_ty_conv _ _ _ _ Hp Hb) as [c2 [t2 [Hc2 [Ht2 Hq2]]]] end.
-    apply (proc_typed_single _ (m_c2 m) B (rs ∖ {[ident pay]} ∖ {[ident cont]} ∪ {[""]})); [exists c2, t2; auto|].
+    apply (proc_typed_single _ (m_c2 m) B (rs ∖ {[ident pay]} ∖ ({[ident cont]} ∖ {[""]}) ∪ {[""]})); [exists c2, t2; auto|].
     apply tshadow; [apply Hbc | apply lookup_empty | ].
     apply (tsubst _ _ _ _ _ _ _ _ A); [apply Hbp | eapply chan_ty_is_chan; eauto | congruence | set_solver | exact Hk].
   - (* RFWD *) eexists. exists Δ. split; [reflexivity|]. eapply fwd_request_ok; eauto.
@@ -723,7 +723,7 @@ Proof.
     eexists. exists Δ. split; [reflexivity|]. apply eff_typed_cont; auto. simpl.
     match goal with Hp : RtTyping.prov_ty _ _ (m_c1 m) _ |- _ =>
       destruct (prov_ty_conv _ _ _ _ Hp Hteq') as [c1 [t1 [Hc1 [Ht1 Hq1]]]] end.
-    apply (proc_typed_single _ (m_c1 m) A' (rs ∖ {[ident pay]} ∪ {[""]})); [exists c1, t1; auto|].
+    apply (proc_typed_single _ (m_c1 m) A' (rs ∖ ({[ident pay]} ∖ {[""]}) ∪ {[""]})); [exists c1, t1; auto|].
     apply tshadow; [apply Hbd | apply lookup_empty | exact Hk].
   - (* RFWD *) eexists. exists Δ. split; [reflexivity|]. eapply fwd_request_ok; eauto.
 Qed.
@@ -926,8 +926,8 @@ Proof.
 Qed.
 
 Lemma act_ShiftP s rs x from k fm tm A :
-  teq T0 s -> prov_name None rs from -> whd s (TUp fm tm A) -> binder x ->
-  typed Δ ∅ (Some (ident x)) (rs ∖ {[ident x]}) A k ->
+  teq T0 s -> prov_name None rs from -> whd s (TUp fm tm A) -> pbinder x ->
+  typed Δ ∅ (Some (ident x)) (rs ∖ ({[ident x]} ∖ {[""]})) A k ->
   typed Δ ∅ None rs s (FShift x from k) ->
   act_view Δ (P (FShift x from k)) (action_of Async D (P (FShift x from k))).
 Proof.
@@ -939,7 +939,7 @@ Proof.
     eexists. exists Δ. split; [reflexivity|]. apply eff_typed_cont; auto. simpl.
     match goal with Hp : RtTyping.prov_ty _ _ (m_c1 m) _ |- _ =>
       destruct (prov_ty_conv _ _ _ _ Hp Hrel) as [c1 [t1 [Hc1 [Ht1 Hq1]]]] end.
-    apply (proc_typed_single _ (m_c1 m) A (rs ∖ {[ident x]} ∪ {[""]})); [exists c1, t1; auto|].
+    apply (proc_typed_single _ (m_c1 m) A (rs ∖ ({[ident x]} ∖ {[""]}) ∪ {[""]})); [exists c1, t1; auto|].
     apply tshadow; [apply Hbx | apply lookup_empty | exact Hk].
   - (* RFWD *) eexists. exists Δ. split; [reflexivity|]. eapply fwd_request_ok; eauto.
 Qed.
